@@ -280,6 +280,10 @@ fn main() {
     cov.insert("ms_per_fetch_cpu".into(), json!(((busy_ns.load(std::sync::atomic::Ordering::Relaxed) as f64 / 1e6 / n.max(1) as f64) * 10.0).round() / 10.0));
     cov.insert("fixture_build_s".into(), json!((fixture_s * 100.0).round() / 100.0));
     cov.insert("sweep_wall_s".into(), json!((sweep_s * 100.0).round() / 100.0));
+    // `finish` exits the process without running destructors: remove the fixture explicitly.
+    for fx in &fixtures {
+        let _ = std::fs::remove_dir_all(fx.root.path());
+    }
     ctx.finish(
         cov,
         &[
